@@ -135,11 +135,11 @@ def leaf_spec(kinds=None, depth=1, required=None):
             if depth > 0:
                 keyf = st.one_of(st.none(), leaf_spec(["str", "loglevel", "host", "ipv4"], 0, required=False), leaf_spec(["str"], 0, required=False))
                 valf = st.one_of(st.none(), leaf_spec([k for k in SCALAR_KINDS if k != "appmode"] + ["secure", "challenge"], depth - 1), leaf_spec(["int", "bytes", "bool"], depth - 1))
-                base["key"] = keyf
-                base["value"] = valf
+                base["keyf"] = keyf
+                base["valuef"] = valf
             else:
-                base["key"] = st.none()
-                base["value"] = st.none()
+                base["keyf"] = st.none()
+                base["valuef"] = st.none()
         else:
             raise AssertionError(kind)
         return D(base)
@@ -216,7 +216,7 @@ def build_field(cc, spec, **extra):
             return cc.ListField(item["schema"], **kw)
         return cc.ListField(build_field(cc, item) if item else None, **kw)
     if kind == "dict":
-        k, v = spec.get("key"), spec.get("value")
+        k, v = spec.get("keyf"), spec.get("valuef")
         return cc.DictField(build_field(cc, k) if k else None, build_field(cc, v) if v else None, **kw)
     raise AssertionError(kind)
 
@@ -379,7 +379,7 @@ def values(spec, depth=2):
         good = st.one_of(st.lists(iv, max_size=4), st.lists(iv, max_size=4), st.lists(iv, max_size=3).map(tuple), J([]),
                          st.sampled_from(["ab", b"ab", {"a": 1}, {1, 2}, 5, None]))
     elif kind == "dict":
-        kf, vf = spec.get("key"), spec.get("value")
+        kf, vf = spec.get("keyf"), spec.get("valuef")
         kv = values(kf, 0) if kf and depth > 0 else st.one_of(st.text(max_size=3), st.sampled_from(["a", "b", "k1"]))
         vv = values(vf, depth - 1) if vf and depth > 0 else st.one_of(st.integers(-3, 3), st.text(max_size=3), st.none())
         kv = kv.filter(_hashable)
